@@ -23,6 +23,8 @@ func main() {
 		cmdCheck(os.Args[2:])
 	case "loops":
 		cmdLoops(os.Args[2:])
+	case "silent":
+		cmdSilent(os.Args[2:])
 	default:
 		fmt.Fprintln(os.Stderr, "unknown command")
 		os.Exit(2)
